@@ -99,15 +99,23 @@ Definition hcase_mismatch (c : hcase) : bool :=
    the callers of CursorPosition received exactly the answers to their queries.  Both from the
    terminal's side ([spec_wire], [spec_answers]): a report CSI .. R is the reply, and must not
    surface as a key, from the moment the query has been written, wherever the schedule put the
-   arming of the request flag *)
+   arming of the request flag.  And the callers of ClipboardPop received exactly the clipboard
+   reports that arrived while they were waiting ([spec_clips]): a report nobody was waiting for
+   (unsolicited, repeated, late) is forgotten, never handed to a later call *)
 Definition hcase_violation (c : hcase) : bool :=
-  let '((_, q, _, sn0), steps, (kt, _), (code, evs, curs, _, _)) := c in
+  let '((_, q, _, sn0), steps, (kt, bt), (code, evs, curs, clips, _)) := c in
   let '(p, rq, _, _, _, _, _, _, _) := sn0 in
   let backpressure := match q with Some n => zlen evs =? n | None => false end in
   if code =? 1 then forallb wf_item (items_of_steps steps)
   else if code =? 2 then negb backpressure
   else negb (events_eqb (filter is_user evs) (spec_wire (dec_of kt) p rq steps)
-             && list_eqb zpair_eqb curs (spec_answers rq false steps)).
+             && list_eqb zpair_eqb curs (spec_answers rq false steps)
+             && list_eqb zlist_eqb clips (spec_clips (b64_of bt) false steps)).
+
+(* the observation the model predicts for a case (what [hcase_mismatch] compares with) *)
+Definition model_obs (o : outcome) : Z * list event * list (Z * Z) * list (list Z) * option snap :=
+  (outcome_code o, events_of (outcome_emits o), cursors_of (outcome_emits o),
+   clips_of (outcome_emits o), match o with Ok s _ => Some (snap_of_state s) | _ => None end).
 
 Definition c03_handle_mismatches (cases : list hcase) : list Z := bad_indices hcase_mismatch cases.
 Definition c03_handle_violations (cases : list hcase) : list Z := bad_indices hcase_violation cases.
